@@ -260,8 +260,9 @@ func (p *c16) aliased(x *res, ctx *runner.Ctx) {
 
 // two pools per kind: letters only, and digit-first / underscore / mixed-case names (what the SDK expression
 // builders emit: #0, #1, :0 ...); within each pool two names are prefixes of another one
-var c16ValPools = [][]string{{":a", ":ab", ":abc", ":b"}, {":0", ":01", ":_", ":A1"}}
-var c16AttrPools = [][]string{{"#n", "#na", "#nab", "#m"}, {"#0", "#01", "#_", "#A1"}}
+// (third pool: names that differ only in the CASE of a letter are different placeholders)
+var c16ValPools = [][]string{{":a", ":ab", ":abc", ":b"}, {":0", ":01", ":_", ":A1"}, {":v", ":V", ":va", ":Va"}}
+var c16AttrPools = [][]string{{"#n", "#na", "#nab", "#m"}, {"#0", "#01", "#_", "#A1"}, {"#s", "#S", "#st", "#St"}}
 
 func subsetOf(names []string, mask int) []string {
 	out := []string{}
@@ -837,6 +838,9 @@ func (p *c16) RunCase(ctx *runner.Ctx) runner.CaseResult {
 	case c < nw+9:
 		i := c - nw - 1
 		p.placeholders(x, adapt.Adapters[i%2], []string{"values", "names"}[(i/2)%2], i/4, ctx)
+		if i/4 == 1 {
+			p.placeholders(x, adapt.Adapters[i%2], []string{"values", "names"}[(i/2)%2], 2, ctx)
+		}
 	case c == nw+9:
 		p.malformedKeys(x, ctx)
 	case c < nw+12:
